@@ -75,7 +75,8 @@ def listMax (l : List Int) (d : Int) : Int := l.foldl (fun a b => if a < b then 
 /-- `newChk` of `cindex.onWrite` for a batch that follows `beforeLen` records of the chunk: the chunk is new to the index —
 the source has no entry (`Generated.C07.onWriteUnknownSourceSetsNewChk`), or its last known chunk is another one, or
 (7ea0278, `onWriteStaleSnapshotEntryIsNewChk`) the entry comes from the snapshot and does not account for the records in
-front of the batch (`firstRec > last.Recs`). The code tests `last.loaded` as well; in this sequential model an entry that
+front of the batch (`firstRec > last.Recs`, tested BEFORE `last.Recs` is raised to the end of the batch:
+`onWriteChecksStalenessBeforeRecsBump`). The code tests `last.loaded` as well; in this sequential model an entry that
 is not fresh from the snapshot accounts for every record of its chunk (`onWrite` runs with every write), so
 `recs < beforeLen` already implies it — the flag matters only between a confirmed write and its notification, which is a
 schedule, exercised by the harness' race section. -/
@@ -85,7 +86,8 @@ def onWriteNewChk (m : CMap) (src : Src) (cid : Nat) (beforeLen : Nat) : Bool :=
   | some sc =>
     match sc.getLast? with
     | none => onWriteUnknownSourceSetsNewChk
-    | some last => decide (last.id ≠ cid) || (onWriteStaleSnapshotEntryIsNewChk && decide (last.recs < beforeLen))
+    | some last => decide (last.id ≠ cid) ||
+      (onWriteStaleSnapshotEntryIsNewChk && onWriteChecksStalenessBeforeRecsBump && decide (last.recs < beforeLen))
 
 /-- what the background rebuilder leaves (`rebuildIndex`): `rebuildIndexInt` walks every record of the chunk and
 `res.update(rInfo)` widens the hull by the true minimum and maximum -/
@@ -148,7 +150,11 @@ def step (K : Codecs) (s : Srv) : Op → Srv
     { mem := { s.mem with pipes := pps }, disk := { s.disk with files := runSteps s.disk.files steps } }
   | .deletePipe name =>
     let pps := s.mem.pipes.filter (fun p => !(p.cfg.name == name))
-    let steps := (if pipeDefsSavedOnDelete then savePipesSteps K.pipes (pps.map (·.cfg)) else []) ++ [Step.remove (pipeInfoPath name)]
+    -- `ppipe.delete` (cancel the workers, remove the position file) runs before the registry save since 84f34ca
+    -- (`Generated.C07.deletePipeRemovesPositionsBeforeSave`); before that the save came first
+    let save := if pipeDefsSavedOnDelete then savePipesSteps K.pipes (pps.map (·.cfg)) else []
+    let steps := if deletePipeRemovesPositionsBeforeSave then Step.remove (pipeInfoPath name) :: save
+      else save ++ [Step.remove (pipeInfoPath name)]
     { mem := { s.mem with pipes := pps }, disk := { s.disk with files := runSteps s.disk.files steps } }
   | .savePipeInfo name pm =>
     { mem := { s.mem with pipes := setPoss s.mem.pipes name pm },
